@@ -539,6 +539,10 @@ class Sim:
                 self.stats["fault:worker_raises"] += 1
                 raise e
             how = "ret"
+            if inv.script.get("end") == "rx":
+                # unusual but legal: the coroutine RETURNS an exception object (nobody raises it)
+                self.stats["fault:worker_returns_exception_object"] += 1
+                return WorkerError(f"returned, never raised: r{inv.req.label}#{inv.idx}")
             return ("ok", inv.req.label, inv.idx)
         finally:
             if not self.torn:
